@@ -34,6 +34,8 @@ val mul : nat -> nat -> nat
 
 val sub : nat -> nat -> nat
 
+val eqb : bool -> bool -> bool
+
 module Nat :
  sig
   val pred : nat -> nat
@@ -100,12 +102,24 @@ type positive =
 | XO of positive
 | XH
 
+type n =
+| N0
+| Npos of positive
+
 type z =
 | Z0
 | Zpos of positive
 | Zneg of positive
 
 module Pos :
+ sig
+  type mask =
+  | IsNul
+  | IsPos of positive
+  | IsNeg
+ end
+
+module Coq_Pos :
  sig
   val succ : positive -> positive
 
@@ -114,6 +128,23 @@ module Pos :
   val add_carry : positive -> positive -> positive
 
   val pred_double : positive -> positive
+
+  val pred_N : positive -> n
+
+  type mask = Pos.mask =
+  | IsNul
+  | IsPos of positive
+  | IsNeg
+
+  val succ_double_mask : mask -> mask
+
+  val double_mask : mask -> mask
+
+  val double_pred_mask : positive -> mask
+
+  val sub_mask : positive -> positive -> mask
+
+  val sub_mask_carry : positive -> positive -> mask
 
   val mul : positive -> positive -> positive
 
@@ -127,11 +158,48 @@ module Pos :
 
   val eqb : positive -> positive -> bool
 
+  val coq_Nsucc_double : n -> n
+
+  val coq_Ndouble : n -> n
+
+  val coq_lor : positive -> positive -> positive
+
+  val coq_land : positive -> positive -> n
+
+  val ldiff : positive -> positive -> n
+
+  val testbit : positive -> n -> bool
+
   val iter_op : ('a1 -> 'a1 -> 'a1) -> positive -> 'a1 -> 'a1
 
   val to_nat : positive -> nat
 
   val of_succ_nat : nat -> positive
+ end
+
+module N :
+ sig
+  val succ_double : n -> n
+
+  val double : n -> n
+
+  val succ_pos : n -> positive
+
+  val sub : n -> n -> n
+
+  val compare : n -> n -> comparison
+
+  val leb : n -> n -> bool
+
+  val pos_div_eucl : positive -> n -> n * n
+
+  val coq_lor : n -> n -> n
+
+  val coq_land : n -> n -> n
+
+  val ldiff : n -> n -> n
+
+  val testbit : n -> n -> bool
  end
 
 module Z :
@@ -158,6 +226,10 @@ module Z :
 
   val ltb : z -> z -> bool
 
+  val geb : z -> z -> bool
+
+  val gtb : z -> z -> bool
+
   val eqb : z -> z -> bool
 
   val max : z -> z -> z
@@ -168,6 +240,8 @@ module Z :
 
   val of_nat : nat -> z
 
+  val of_N : n -> z
+
   val pos_div_eucl : positive -> z -> z * z
 
   val div_eucl : z -> z -> z * z
@@ -176,7 +250,21 @@ module Z :
 
   val modulo : z -> z -> z
 
+  val quotrem : z -> z -> z * z
+
+  val quot : z -> z -> z
+
+  val rem : z -> z -> z
+
+  val odd : z -> bool
+
   val log2 : z -> z
+
+  val testbit : z -> z -> bool
+
+  val coq_lor : z -> z -> z
+
+  val ldiff : z -> z -> z
  end
 
 type err =
@@ -509,6 +597,254 @@ val check_answer : acall -> val0 -> z list
 
 val dispatch_algo : z -> val0 -> val0 option
 
+val eSC : z
+
+val bS : z
+
+val sO : z
+
+val sI : z
+
+val bEL : z
+
+val lF : z
+
+val in_rng : z -> z -> z -> bool
+
+val is_digit : z -> bool
+
+val is_sep : z -> bool
+
+val is_param : z -> bool
+
+val is_final : z -> bool
+
+val is_intro : z -> bool
+
+val is_print : z -> bool
+
+val is_cont : z -> bool
+
+val rune_len : str -> nat
+
+val rune_count_aux : nat -> str -> nat
+
+val rune_count : str -> nat
+
+val take_while : (z -> bool) -> str -> str
+
+val m_csi : str -> nat option
+
+val osc8_close_head : str
+
+val m_osc : str -> nat option
+
+val m_esc2 : str -> nat option
+
+val m_shift : str -> nat option
+
+val m_bs : str -> nat option
+
+val orelse : 'a1 option -> 'a1 option -> 'a1 option
+
+val match_at : str -> nat option
+
+val first_match_from : nat -> str -> (nat * nat) option
+
+val first_match : str -> (nat * nat) option
+
+val strip_aux : nat -> str -> str
+
+val strip_spec : str -> str
+
+val kept_runes_aux : nat -> str -> str -> nat
+
+val kept_runes : str -> nat
+
+type colour =
+| CDefault
+| CIdx of z
+| CRGB of z * z * z
+
+type attrs = { a_bold : bool; a_dim : bool; a_italic : bool;
+               a_underline : bool; a_blink : bool; a_reverse : bool;
+               a_strike : bool }
+
+type sgr = { s_fg : colour; s_bg : colour; s_at : attrs }
+
+val no_attrs : attrs
+
+val sgr_reset : sgr
+
+val set_at : attrs -> z -> bool -> attrs
+
+val with_fg : sgr -> colour -> sgr
+
+val with_bg : sgr -> colour -> sgr
+
+val with_at : sgr -> attrs -> sgr
+
+val sgr_one : z -> sgr -> sgr
+
+val sgr_params : nat -> z list -> sgr -> sgr
+
+val sgr_apply : z list -> sgr -> sgr
+
+val byte_val : z -> bool
+
+val sgr_wf_aux : nat -> z list -> bool
+
+val sgr_wf : z list -> bool
+
+val enc_colour : colour -> z
+
+val bit : bool -> z -> z
+
+val enc_attrs : attrs -> z
+
+type item =
+| IText of str
+| ISgr of z list
+| IOther
+
+val term_chars : item list -> sgr -> sgr list
+
+val slice : str -> nat -> nat -> str res
+
+val rune_start : z -> bool
+
+val last_rune_len : str -> nat
+
+val mcs_loop : str -> nat -> nat option
+
+val match_control_sequence : str -> nat option
+
+val skip_print : str -> nat -> nat
+
+val match_osc : str -> nat -> nat option res
+
+val skip_digits : str -> nat -> nat
+
+val esc_csi : str -> nat option res
+
+val esc_osc : str -> nat option res
+
+val esc_two : str -> nat option res
+
+val esc_case : str -> nat option res
+
+val scan_loop : str -> str -> nat -> (nat * nat) option res
+
+val prescan : str -> str -> nat -> ((str * str) * nat) option
+
+val next_ansi : str -> (nat * nat) option res
+
+type url = { u_uri : str; u_params : str }
+
+type astate = { fg : z; bg : z; attr : z; lbg : z; aurl : url option }
+
+val colored : astate -> bool
+
+val url_nil : astate -> bool
+
+val st_equals : astate -> bool -> astate option -> bool
+
+val wrap64 : z -> z
+
+val wrap32 : z -> z
+
+val index_byte0 : z -> str -> nat -> nat option
+
+val atoi_loop : str -> z -> z
+
+val parse_ansi_code : str -> (z * str) res
+
+val has_suffix : str -> str -> bool
+
+val has_prefix : str -> str -> bool
+
+type istate = { i_fg : z; i_bg : z; i_attr : z; i_256 : z; i_ptr_bg : 
+                bool; i_count : nat }
+
+val set_ptr : istate -> z -> istate
+
+val get_ptr : istate -> z
+
+val set_256 : istate -> z -> istate
+
+val set_attr : istate -> z -> istate
+
+val set_fg : istate -> z -> istate
+
+val set_bg : istate -> z -> istate
+
+val a_BOLD : z
+
+val a_DIM : z
+
+val a_ITALIC : z
+
+val a_UNDERLINE : z
+
+val a_BLINK : z
+
+val a_REVERSE : z
+
+val a_STRIKE : z
+
+val step_num : istate -> z -> istate
+
+val sgr_loop : nat -> str -> istate -> istate res
+
+val oSC8 : str
+
+val sT : str
+
+val interpret_code : str -> astate option -> (astate * bool) res
+
+type aoff = { o_b : nat; o_e : nat; o_col : astate }
+
+val update_last : aoff list -> nat -> aoff list res
+
+val ec_loop :
+  nat -> str -> astate option -> aoff list -> str -> nat -> bool ->
+  (((((str * astate option) * aoff list) * str) * nat) * bool) res
+
+val extract_color :
+  str -> astate option -> ((str * aoff list option) * astate option) res
+
+val v_span : (nat * nat) option res -> val0
+
+val v_url : url option -> val0
+
+val v_state : astate -> val0
+
+val v_state_opt : astate option -> val0
+
+val as_url : val0 -> url option
+
+val as_state : val0 -> astate
+
+val as_state_opt : val0 -> astate option
+
+val v_off : aoff -> val0
+
+val d_extract : str -> astate option -> val0
+
+val d_interpret : str -> astate option -> val0
+
+val dec_colour : z -> colour
+
+val dec_attrs : z -> attrs
+
+val as_sgr : val0 -> sgr
+
+val v_sgr : sgr -> val0
+
+val as_item : val0 -> item
+
+val dispatch_ansi : z -> val0 -> val0 option
+
 val cOLON : z
 
 val cOMMA : z
@@ -527,7 +863,7 @@ val lower : z -> z
 
 val to_lower : str -> str
 
-val is_sep : z -> bool
+val is_sep0 : z -> bool
 
 val split_aux : z -> str -> str -> str list
 
@@ -547,7 +883,7 @@ val named_keys : (str * key) list
 
 val assoc_str : str -> (str * 'a1) list -> 'a1 option
 
-val has_prefix : str -> str -> bool
+val has_prefix0 : str -> str -> bool
 
 val s_f : str
 
@@ -639,7 +975,7 @@ val exec_names : str list
 
 val prefix_ci : str -> str -> bool
 
-val first_match : str list -> str -> nat option
+val first_match0 : str list -> str -> nat option
 
 val is_colon_plus : z -> bool
 
@@ -679,7 +1015,7 @@ val alt_comma : nat -> str -> str
 
 val contains : str -> str -> bool
 
-val has_suffix : str -> str -> bool
+val has_suffix0 : str -> str -> bool
 
 val key_of_masked_token : str -> key option
 
@@ -691,7 +1027,7 @@ val parse_key_chords : str -> key list outcome
 
 val is_name_char : z -> bool
 
-val take_while : (z -> bool) -> str -> str
+val take_while0 : (z -> bool) -> str -> str
 
 val name_prefix : str -> str
 
@@ -752,9 +1088,9 @@ val nLc : z
 
 val pATHSEP : z
 
-type item = z * str
+type item0 = z * str
 
-val idx : item -> z
+val idx : item0 -> z
 
 type act0 =
 | AChar of z
@@ -797,7 +1133,7 @@ type act0 =
 | AClearSelection
 | ATruncate
 | ARender
-| AUpdate of item list * bool
+| AUpdate of item0 list * bool
 
 type zip = { zb : str; za : str; zk : str }
 
@@ -847,31 +1183,31 @@ val clamp_pos : z -> z -> z
 
 val cur_move : bool -> z -> z -> z -> z
 
-val sel_mem : z -> item list -> bool
+val sel_mem : z -> item0 list -> bool
 
-val sel_remove : z -> item list -> item list
+val sel_remove : z -> item0 list -> item0 list
 
-val sel_add : z -> item -> item list -> bool * item list
+val sel_add : z -> item0 -> item0 list -> bool * item0 list
 
-val sel_toggle : z -> item -> item list -> bool * item list
+val sel_toggle : z -> item0 -> item0 list -> bool * item0 list
 
-val sel_add_all : z -> item list -> item list -> item list
+val sel_add_all : z -> item0 list -> item0 list -> item0 list
 
-val sel_remove_all : item list -> item list -> item list
+val sel_remove_all : item0 list -> item0 list -> item0 list
 
-val sel_toggle_all : z -> item list -> item list -> item list
+val sel_toggle_all : z -> item0 list -> item0 list -> item0 list
 
-val spec_output : item list -> item option -> item list
+val spec_output : item0 list -> item0 option -> item0 list
 
 type sparams = { sp_multi : z; sp_cycle : bool; sp_flip : bool; sp_page : 
                  z; sp_noinput : bool }
 
-type sstate = { ss_zip : zip; ss_res : item list; ss_pos : z;
-                ss_sel : item list }
+type sstate = { ss_zip : zip; ss_res : item0 list; ss_pos : z;
+                ss_sel : item0 list }
 
 val ss_count : sstate -> z
 
-val ss_current : sstate -> item option
+val ss_current : sstate -> item0 option
 
 val ecmd_of_spec : sstate -> act0 -> ecmd
 
@@ -879,7 +1215,7 @@ val dirz : sparams -> bool -> z
 
 val with_pos : sstate -> z -> sstate
 
-val with_sel : sstate -> item list -> sstate
+val with_sel : sstate -> item0 list -> sstate
 
 val smove : sparams -> sstate -> bool -> sstate
 
@@ -901,14 +1237,14 @@ type cfg = { c_multi : z; c_cycle : bool; c_default_layout : bool;
              c_inputless : bool; c_track : bool; c_maxitems : z;
              c_scrolloff : z; c_fileword : bool }
 
-type st = { s_input : str; s_cx : nat; s_yanked : str; s_res : item list;
-            s_cy : z; s_offset : z; s_sel : item list }
+type st = { s_input : str; s_cx : nat; s_yanked : str; s_res : item0 list;
+            s_cy : z; s_offset : z; s_sel : item0 list }
 
 val take : 'a1 list -> nat -> 'a1 list res
 
 val drop : 'a1 list -> nat -> 'a1 list res
 
-val slice : 'a1 list -> nat -> nat -> 'a1 list res
+val slice0 : 'a1 list -> nat -> nat -> 'a1 list res
 
 val constrain_z : z -> z -> z -> z
 
@@ -932,9 +1268,9 @@ val set_edit : st -> str -> nat -> str -> st
 
 val set_cy : st -> z -> st
 
-val set_sel : st -> item list -> st
+val set_sel : st -> item0 list -> st
 
-val current_item : st -> item option res
+val current_item : st -> item0 option res
 
 val insert_at : st -> str -> st res
 
@@ -952,22 +1288,23 @@ val constrain_loop : cfg -> nat -> z -> z -> z -> z -> (z * z) res
 
 val constrain : cfg -> st -> st res
 
-val select_item : cfg -> item -> item list -> bool * item list
+val select_item : cfg -> item0 -> item0 list -> bool * item0 list
 
-val deselect_item : item -> item list -> item list
+val deselect_item : item0 -> item0 list -> item0 list
 
-val toggle_item : cfg -> item -> item list -> bool * item list
+val toggle_item : cfg -> item0 -> item0 list -> bool * item0 list
 
 val toggle_current : cfg -> st -> (bool * st) res
 
-val select_all_loop : cfg -> item list -> item list -> item list
+val select_all_loop : cfg -> item0 list -> item0 list -> item0 list
 
-val deselect_all_loop : item list -> item list -> item list
+val deselect_all_loop : item0 list -> item0 list -> item0 list
 
-val toggle_all_first : item list -> nat -> item list -> nat list * item list
+val toggle_all_first :
+  item0 list -> nat -> item0 list -> nat list * item0 list
 
 val toggle_all_second :
-  cfg -> item list -> nat -> nat list -> item list -> item list
+  cfg -> item0 list -> nat -> nat list -> item0 list -> item0 list
 
 val multi_on : cfg -> bool
 
@@ -975,9 +1312,9 @@ val toggle_and_move : cfg -> st -> z -> st res
 
 val page_move : cfg -> st -> bool -> bool -> st
 
-val find_index : z -> item list -> nat option
+val find_index : z -> item0 list -> nat option
 
-val update_list : cfg -> st -> item list -> bool -> st res
+val update_list : cfg -> st -> item0 list -> bool -> st res
 
 val do_list : cfg -> st -> act0 -> st res
 
@@ -989,15 +1326,15 @@ val do_action : (z -> bool) -> cfg -> st -> act0 -> st res
 
 val run : (z -> bool) -> cfg -> st -> act0 list -> st res
 
-val output : st -> item list res
+val output : st -> item0 list res
 
-val as_item : val0 -> item
+val as_item0 : val0 -> item0
 
-val vitem : item -> val0
+val vitem : item0 -> val0
 
-val as_items : val0 -> item list
+val as_items : val0 -> item0 list
 
-val vitems : item list -> val0
+val vitems : item0 list -> val0
 
 val as_table : val0 -> z -> bool
 
@@ -1118,7 +1455,7 @@ val find_crlf : str -> nat option
 
 val cut_line : str -> (str * str) option
 
-val take_while0 : (z -> bool) -> str -> str
+val take_while1 : (z -> bool) -> str -> str
 
 val split_on_aux : z -> str -> str -> str list
 
@@ -1420,7 +1757,7 @@ val vnone : val0
 
 val vsome : val0 -> val0
 
-val is_digit : z -> bool
+val is_digit0 : z -> bool
 
 val digits_val0 : z -> str -> z option
 
@@ -1699,7 +2036,7 @@ val is_space_ascii : z -> bool
 
 val trim_right0 : str -> str
 
-val take_while1 : ('a1 -> bool) -> 'a1 list -> 'a1 list
+val take_while2 : ('a1 -> bool) -> 'a1 list -> 'a1 list
 
 val awk_fields_fuel : nat -> str -> str list
 
@@ -1741,7 +2078,7 @@ val exitError : z
 
 val exitInterrupt : z
 
-type item0 = { it_index : nat; it_text : str; it_orig : str option }
+type item1 = { it_index : nat; it_text : str; it_orig : str option }
 
 type oopts = { o_ansi : bool; o_with_nth : bool; o_print0 : bool;
                o_print_query : bool; o_sort : bool; o_tac : bool;
@@ -1810,55 +2147,55 @@ val apply_nth : delim -> nth_fn -> str list -> z -> str res
 val ansi_processor : (str -> str) -> oopts -> str -> str
 
 val trans :
-  (str -> str) -> (nat -> str -> str) -> oopts -> nat -> str -> item0
+  (str -> str) -> (nat -> str -> str) -> oopts -> nat -> str -> item1
 
-val as_string : (str -> str) -> (str -> str) -> bool -> item0 -> str
+val as_string : (str -> str) -> (str -> str) -> bool -> item1 -> str
 
 val printer : bool -> str -> str -> str
 
 val stream_loop :
-  (str -> str) -> (str -> str) -> (nat -> str -> str) -> (item0 -> bool) ->
+  (str -> str) -> (str -> str) -> (nat -> str -> str) -> (item1 -> bool) ->
   oopts -> nat -> str list -> str -> bool -> str * bool
 
 val build_items :
-  (str -> str) -> (nat -> str -> str) -> oopts -> nat -> str list -> item0
+  (str -> str) -> (nat -> str -> str) -> oopts -> nat -> str list -> item1
   list
 
 val scan :
-  (item0 -> bool) -> (item0 list -> item0 list) -> bool -> oopts -> item0
-  list -> item0 list
+  (item1 -> bool) -> (item1 list -> item1 list) -> bool -> oopts -> item1
+  list -> item1 list
 
 val print_loop :
-  (str -> str) -> (str -> str) -> oopts -> item0 list -> str -> bool ->
+  (str -> str) -> (str -> str) -> oopts -> item1 list -> str -> bool ->
   str * bool
 
 val filter_mode :
-  (str -> str) -> (str -> str) -> (nat -> str -> str) -> (item0 -> bool) ->
-  (item0 list -> item0 list) -> bool -> oopts -> str -> str list -> str * z
+  (str -> str) -> (str -> str) -> (nat -> str -> str) -> (item1 -> bool) ->
+  (item1 list -> item1 list) -> bool -> oopts -> str -> str list -> str * z
 
 type topts = { to_ansi : bool; to_print0 : bool; to_print_query : bool;
                to_expect : bool; to_multi : nat;
                to_accept_nth : nth_fn option; to_delim : delim }
 
-type smap = (nat * (nat * item0)) list
+type smap = (nat * (nat * item1)) list
 
 type sstate0 = smap * nat
 
-val m_find : nat -> smap -> (nat * item0) option
+val m_find : nat -> smap -> (nat * item1) option
 
 val m_delete : nat -> smap -> smap
 
-val select_item0 : nat -> item0 -> sstate0 -> sstate0 * bool
+val select_item0 : nat -> item1 -> sstate0 -> sstate0 * bool
 
-val deselect_item0 : item0 -> sstate0 -> sstate0
+val deselect_item0 : item1 -> sstate0 -> sstate0
 
-val toggle_item0 : nat -> item0 -> sstate0 -> sstate0 * bool
+val toggle_item0 : nat -> item1 -> sstate0 -> sstate0 * bool
 
-val insert_by_time : (nat * item0) -> (nat * item0) list -> (nat * item0) list
+val insert_by_time : (nat * item1) -> (nat * item1) list -> (nat * item1) list
 
-val sort_selected : smap -> item0 list
+val sort_selected : smap -> item1 list
 
-type term = { t_merger : item0 list; t_cy : z; t_sel : sstate0;
+type term = { t_merger : item1 list; t_cy : z; t_sel : sstate0;
               t_queue : str list; t_input : str; t_pressed : str;
               t_reading : bool; t_count : nat }
 
@@ -1866,7 +2203,7 @@ val with_sel0 : term -> sstate0 -> term
 
 val with_cy : term -> z -> term
 
-val current_item0 : term -> item0 option res
+val current_item0 : term -> item1 option res
 
 val constrain0 : z -> z -> z -> z
 
@@ -1875,12 +2212,12 @@ val vset0 : term -> z -> term
 val vmove0 : term -> z -> term
 
 val accept_nth :
-  (str -> str) -> (str -> str) -> topts -> nth_fn -> item0 -> str res
+  (str -> str) -> (str -> str) -> topts -> nth_fn -> item1 -> str res
 
-val out_transform : (str -> str) -> (str -> str) -> topts -> item0 -> str res
+val out_transform : (str -> str) -> (str -> str) -> topts -> item1 -> str res
 
 val print_items :
-  (str -> str) -> (str -> str) -> topts -> item0 list -> str -> str res
+  (str -> str) -> (str -> str) -> topts -> item1 list -> str -> str res
 
 val output0 :
   (str -> str) -> (str -> str) -> topts -> term -> (str * bool) res
@@ -1901,7 +2238,7 @@ type action0 =
 | ALast0
 | APos0 of z
 | APrint of str
-| AUpdate0 of str * item0 list * z
+| AUpdate0 of str * item1 list * z
 | AAccept
 | AAcceptNonEmpty
 | AAcceptOrPrintQuery
@@ -1914,14 +2251,14 @@ type outcome1 =
 | Running of term
 | Exited of str * z
 
-val select_all_loop0 : nat -> item0 list -> sstate0 -> sstate0
+val select_all_loop0 : nat -> item1 list -> sstate0 -> sstate0
 
-val deselect_all_loop0 : item0 list -> sstate0 -> sstate0
+val deselect_all_loop0 : item1 list -> sstate0 -> sstate0
 
 val toggle_all_1 :
-  nat -> item0 list -> sstate0 -> nat list -> sstate0 * nat list
+  nat -> item1 list -> sstate0 -> nat list -> sstate0 * nat list
 
-val toggle_all_2 : nat -> nat -> item0 list -> sstate0 -> nat list -> sstate0
+val toggle_all_2 : nat -> nat -> item1 list -> sstate0 -> nat list -> sstate0
 
 val toggle_current0 : topts -> term -> (term * bool) res
 
@@ -1937,12 +2274,12 @@ val run_actions :
   res
 
 val select1_exit0 :
-  (str -> str) -> (str -> str) -> topts -> bool -> bool -> str -> item0 list
+  (str -> str) -> (str -> str) -> topts -> bool -> bool -> str -> item1 list
   -> (str * z) option res
 
 val interactive :
   (str -> str) -> (str -> str) -> bool -> topts -> bool -> bool -> str ->
-  item0 list -> nat -> action0 list -> outcome1 res
+  item1 list -> nat -> action0 list -> outcome1 res
 
 val tbl_lookup : (str * str) list -> str -> str
 
@@ -1950,7 +2287,7 @@ val as_tbl : val0 -> (str * str) list
 
 val as_bits : val0 -> bool list
 
-val match_by_index : bool list -> item0 -> bool
+val match_by_index : bool list -> item1 -> bool
 
 val as_oopts : val0 -> oopts
 
@@ -1968,9 +2305,9 @@ val as_delim : val0 -> delim
 
 val as_topts : val0 -> topts
 
-val pick_items : item0 list -> nat list -> item0 list
+val pick_items : item1 list -> nat list -> item1 list
 
-val as_action : item0 list -> val0 -> action0
+val as_action : item1 list -> val0 -> action0
 
 val d_interactive : val0 -> val0
 
@@ -2083,9 +2420,9 @@ type pattern = { pat_opts : popts; pat_cs : bool; pat_nm : bool;
 
 val qopts_of : popts -> qopts
 
-val has_prefix0 : str -> z -> bool
+val has_prefix1 : str -> z -> bool
 
-val has_suffix0 : str -> z -> bool
+val has_suffix1 : str -> z -> bool
 
 val slice_from1 : str -> str res
 
@@ -2223,9 +2560,9 @@ val export_line : str -> str -> str
 
 val strip_prefix0 : str -> str -> str option
 
-val has_prefix1 : str -> str -> bool
+val has_prefix2 : str -> str -> bool
 
-val has_suffix1 : str -> str -> bool
+val has_suffix2 : str -> str -> bool
 
 val trim_suffix0 : str -> str -> str
 
@@ -2261,7 +2598,7 @@ val opt_char : z -> str -> nat * str
 
 val m_a4 : str -> nat option
 
-val match_at : str -> nat option
+val match_at0 : str -> nat option
 
 type piece =
 | PLit of str
@@ -2283,7 +2620,7 @@ val s_fzf_colon : str
 
 val parse_placeholder : str -> (flags * str) res
 
-val is_digit0 : z -> bool
+val is_digit1 : z -> bool
 
 val digits_val1 : z -> str -> z option
 
@@ -2350,13 +2687,13 @@ val trim_with : (str -> nat) -> nat -> str -> str
 
 val trim_space0 : str -> str
 
-type item1 = z * str
+type item2 = z * str
 
 val min_int32 : z
 
 type params = { p_delim : str option; p_printsep : str; p_force_plus : 
-                bool; p_query : str; p_current : item1 list;
-                p_selected : item1 list; p_action : str; p_prompt : str;
+                bool; p_query : str; p_current : item2 list;
+                p_selected : item2 list; p_action : str; p_prompt : str;
                 p_fish : bool }
 
 type outp =
@@ -2381,16 +2718,16 @@ val s_empty_quotes : str
 
 val quoted : params -> str -> str * str
 
-val repl_item : params -> flags -> item1 -> str * str
+val repl_item : params -> flags -> item2 -> str * str
 
 val field_value : params -> flags -> rng list -> str -> str res
 
-val repl_fields : params -> flags -> rng list -> item1 -> (str * str) res
+val repl_fields : params -> flags -> rng list -> item2 -> (str * str) res
 
 val map_res0 : ('a1 -> 'a2 res) -> 'a1 list -> 'a2 list res
 
 val over_items :
-  params -> flags -> bool -> (item1 -> (str * str) res) -> str list ->
+  params -> flags -> bool -> (item2 -> (str * str) res) -> str list ->
   ((outp * str list) * str list) res
 
 val expand_ph :
@@ -2406,7 +2743,7 @@ val replace_placeholder : params -> str -> str list -> (str * str list) res
 
 val vopt_words : str list option -> val0
 
-val as_item0 : val0 -> item1
+val as_item1 : val0 -> item2
 
 val as_optstr : val0 -> str option
 
@@ -2420,6 +2757,252 @@ val v_piece : piece -> val0
 
 val dispatch_placeholder : z -> val0 -> val0 option
 
+type crit =
+| ByScore
+| ByChunk
+| ByLength
+| ByBegin
+| ByEnd
+| ByPathname
+
+val zlen : 'a1 list -> z
+
+val take_while3 : ('a1 -> bool) -> 'a1 list -> 'a1 list
+
+val clamp16 : z -> z
+
+val ascii_space1 : z -> bool
+
+val is_sep1 : z -> bool
+
+val is_space0 : (z -> bool) -> z -> bool
+
+val not_space : (z -> bool) -> z -> bool
+
+val lead_ws0 : (z -> bool) -> str -> z
+
+val trail_ws0 : (z -> bool) -> str -> z
+
+val trim_len : (z -> bool) -> str -> z
+
+val valid_offsets : (z * z) list -> (z * z) list
+
+val span0 : (z * z) list -> ((z * z) * z) option
+
+val word_start : (z -> bool) -> str -> z -> z
+
+val word_end : (z -> bool) -> str -> z -> z
+
+val last_sep : str -> z
+
+val key1 : (z -> bool) -> crit -> str -> (z * z) list -> z -> z
+
+val key0 : (z -> bool) -> crit list -> str -> (z * z) list -> z -> z list
+
+type ritem = { ri_index : z; ri_key : z list }
+
+val lex_ltb : z list -> z list -> bool
+
+val rank_ltb : bool -> ritem -> ritem -> bool
+
+val insert : ('a1 -> 'a1 -> bool) -> 'a1 -> 'a1 list -> 'a1 list
+
+val isort : ('a1 -> 'a1 -> bool) -> 'a1 list -> 'a1 list
+
+val merge : ('a1 -> 'a1 -> bool) -> 'a1 list -> 'a1 list -> 'a1 list
+
+val merge_pairs : ('a1 -> 'a1 -> bool) -> 'a1 list list -> 'a1 list list
+
+val merge_all : ('a1 -> 'a1 -> bool) -> nat -> 'a1 list list -> 'a1 list
+
+val msort : ('a1 -> 'a1 -> bool) -> 'a1 list -> 'a1 list
+
+val ranked : bool -> ritem list -> ritem list
+
+val ranked_fast : bool -> ritem list -> ritem list
+
+val input_order : bool -> 'a1 list -> 'a1 list
+
+val result_order : bool -> bool -> ritem list -> ritem list
+
+type line = { ln_index : z; ln_text : str;
+              ln_match : ((z * z) list * z) option }
+
+val matched_items : (z -> bool) -> crit list -> line list -> ritem list
+
+val results :
+  (z -> bool) -> crit list -> bool -> bool -> bool -> nat -> line list -> z
+  list
+
+val results_fast :
+  (z -> bool) -> crit list -> bool -> bool -> bool -> nat -> line list -> z
+  list
+
+val zlength : 'a1 list -> z
+
+val getz : 'a1 list -> z -> 'a1 res
+
+val as_uint16 : z -> z
+
+val byScore : z
+
+val byChunk : z
+
+val byLength : z
+
+val byBegin : z
+
+val byEnd : z
+
+val byPathname : z
+
+type item3 = { it_index0 : z; it_text0 : str }
+
+type points = ((z * z) * z) * z
+
+type result = { r_index : z; r_points : points }
+
+val set_point : points -> z -> z -> points res
+
+val trim_back : (z -> bool) -> str -> nat -> z -> z res
+
+val trim_front : (z -> bool) -> str -> nat -> z -> z res
+
+val trim_length : (z -> bool) -> str -> z res
+
+type span1 = { min_begin : z; min_end : z; max_end : z; valid_found : bool }
+
+val scan_offsets : (z * z) list -> span1 -> span1
+
+val chunk_b : (z -> bool) -> str -> nat -> z -> z res
+
+val chunk_e : (z -> bool) -> str -> nat -> z -> z res
+
+val last_delim : str -> nat -> z -> z res
+
+val white_prefix : (z -> bool) -> str -> nat -> z -> z -> z -> z res
+
+val crit_val : (z -> bool) -> z -> str -> span1 -> z -> z res
+
+val fill_points :
+  (z -> bool) -> z list -> z -> str -> span1 -> z -> points -> points res
+
+val build_result :
+  (z -> bool) -> z list -> item3 -> (z * z) list -> z -> result res
+
+val compare_ranks : result -> result -> bool -> bool
+
+val pack64 : points -> z
+
+val compare_ranks_x86 : result -> result -> bool -> bool
+
+val sort_insert : ('a1 -> 'a1 -> bool) -> 'a1 -> 'a1 list -> 'a1 list
+
+val sort_results : ('a1 -> 'a1 -> bool) -> 'a1 list -> 'a1 list
+
+val slicez : 'a1 list -> z -> z -> 'a1 list res
+
+val setz : 'a1 list -> z -> 'a1 -> 'a1 list res
+
+val sum_lengths : 'a1 list list -> z
+
+type ('i, 'a) merger = { mg_lists : 'a list list; mg_merged : 'a list;
+                         mg_chunks : 'i list list option;
+                         mg_cursors : z list; mg_sorted : bool;
+                         mg_tac : bool; mg_count : z }
+
+val new_merger : 'a2 list list -> bool -> bool -> ('a1, 'a2) merger
+
+val pass_merger : 'a1 list list -> bool -> ('a1, 'a2) merger
+
+val merger_length : ('a1, 'a2) merger -> z
+
+val scan_heads :
+  ('a1 -> 'a1 -> bool) -> 'a1 list list -> z list -> z -> z -> 'a1 option ->
+  ((z list * z) * 'a1 option) res
+
+val extend :
+  ('a1 -> 'a1 -> bool) -> nat -> 'a1 list list -> 'a1 list -> z list -> ('a1
+  list * z list) res
+
+val merged_get :
+  ('a2 -> 'a2 -> bool) -> ('a1, 'a2) merger -> z -> ('a2 * ('a1, 'a2) merger)
+  res
+
+val unsorted_get : 'a1 list list -> z -> 'a1 res
+
+val merger_get :
+  ('a1 -> 'a2) -> ('a2 -> 'a2 -> bool) -> z -> ('a1, 'a2) merger -> z ->
+  ('a2 * ('a1, 'a2) merger) res
+
+val probes :
+  ('a1 -> 'a2) -> ('a2 -> 'a2 -> bool) -> z -> ('a1, 'a2) merger -> z list ->
+  'a2 list res
+
+val slices_from : 'a1 list -> nat -> z -> z -> z -> 'a1 list list res
+
+val slice_chunks : z -> 'a1 list -> 'a1 list list res
+
+val match_chunk : ('a1 -> 'a2 option) -> 'a1 list -> 'a2 list
+
+val scan1 :
+  ('a2 -> 'a2 -> bool) -> ('a1 -> 'a2 option) -> z -> bool -> bool -> bool ->
+  bool -> 'a1 list list -> ('a1, 'a2) merger res
+
+val sp_of : z list -> z -> bool
+
+val crit_of : z -> crit
+
+val as_offsets : val0 -> (z * z) list
+
+val vints0 : z list -> val0
+
+val vres : ('a1 -> val0) -> 'a1 res -> val0
+
+val vpoints : points -> val0
+
+val as_points : val0 -> points
+
+val as_result : val0 -> result
+
+val ritem_of : result -> ritem
+
+val d_key : val0 -> val0
+
+val d_build : val0 -> val0
+
+val d_compare : val0 -> val0
+
+val as_results : val0 -> result list
+
+val less_of : bool -> result -> result -> bool
+
+val idres : result -> result
+
+val d_merger : val0 -> val0
+
+val d_pass : val0 -> val0
+
+val d_slices : val0 -> val0
+
+val as_line : val0 -> line
+
+val d_results : bool -> val0 -> val0
+
+val d_sort : val0 -> val0
+
+type witem = z * result option
+
+val as_witem : val0 -> witem
+
+val d_scan : val0 -> val0
+
+val as_ritem : val0 -> ritem
+
+val d_order : val0 -> val0
+
+val dispatch_rank : z -> val0 -> val0 option
+
 val nLB : z
 
 val nUL : z
@@ -2432,19 +3015,19 @@ val split_acc : z -> str -> str -> str list
 
 val split_records : z -> str -> str list
 
-type item2 = nat * str
+type item4 = nat * str
 
-val number_from : nat -> str list -> item2 list
+val number_from : nat -> str list -> item4 list
 
 val header_of : nat -> str list -> str list
 
-val items_of : nat -> str list -> item2 list
+val items_of : nat -> str list -> item4 list
 
 val keep_tail : nat -> 'a1 list -> 'a1 list
 
-val searchable : bool -> nat -> nat -> str -> item2 list
+val searchable : bool -> nat -> nat -> str -> item4 list
 
-type slice0 = { sl_buf : nat; sl_off : nat; sl_len : nat }
+type slice1 = { sl_buf : nat; sl_off : nat; sl_len : nat }
 
 type mem0 = str list
 
@@ -2456,7 +3039,7 @@ val overwrite : 'a1 list -> 'a1 list -> 'a1 list res
 
 val write_off : nat -> 'a1 list -> 'a1 list -> 'a1 list res
 
-val deref : mem0 -> slice0 -> str res
+val deref : mem0 -> slice1 -> str res
 
 val write_at : mem0 -> nat -> nat -> str -> mem0 res
 
@@ -2464,11 +3047,11 @@ val alloc : mem0 -> str -> mem0 * nat
 
 val cR : z
 
-val index_byte0 : str -> z -> nat option
+val index_byte1 : str -> z -> nat option
 
-type fstate = { f_mem : mem0; f_left : str; f_items : slice0 list }
+type fstate = { f_mem : mem0; f_left : str; f_items : slice1 list }
 
-val emit0 : fstate -> slice0 -> fstate res
+val emit0 : fstate -> slice1 -> fstate res
 
 val scan_buf : nat -> z -> bool -> nat -> nat -> str -> fstate -> fstate res
 
@@ -2477,13 +3060,13 @@ val read_retry : nat -> nat -> nat -> str -> nat list -> str * nat list
 val read_tries : nat
 
 val feed_loop :
-  nat -> nat -> nat -> z -> bool -> str -> nat list -> slice0 -> fstate ->
+  nat -> nat -> nat -> z -> bool -> str -> nat list -> slice1 -> fstate ->
   fstate res
 
 val feed :
-  nat -> nat -> z -> bool -> str -> nat list -> (mem0 * slice0 list) res
+  nat -> nat -> z -> bool -> str -> nat list -> (mem0 * slice1 list) res
 
-val deref_all : mem0 -> slice0 list -> str list res
+val deref_all : mem0 -> slice1 list -> str list res
 
 val feed_records : nat -> nat -> z -> bool -> str -> nat list -> str list res
 
@@ -2520,19 +3103,19 @@ val run_ops :
 
 type bstate = { b_header : str list; b_index : nat }
 
-val build : nat -> bstate -> str -> bstate * item2 option
+val build : nat -> bstate -> str -> bstate * item4 option
 
 val ingest :
-  nat -> nat -> bstate -> item2 chunklist -> str list -> (bstate * item2
+  nat -> nat -> bstate -> item4 chunklist -> str list -> (bstate * item4
   chunklist) res
 
 val pipeline :
   nat -> nat -> nat -> bool -> nat -> nat -> str -> nat list -> (str
-  list * item2 list) res
+  list * item4 list) res
 
 val as_nats : val0 -> nat list
 
-val vitem0 : item2 -> val0
+val vitem0 : item4 -> val0
 
 val vres_strs : str list res -> val0
 
@@ -2558,7 +3141,7 @@ val is_blank1 : z -> bool
 
 val non_blank : z -> bool
 
-val span0 : ('a1 -> bool) -> 'a1 list -> 'a1 list * 'a1 list
+val span2 : ('a1 -> bool) -> 'a1 list -> 'a1 list * 'a1 list
 
 val awk_fields_from : nat -> str -> str list
 
@@ -2610,7 +3193,7 @@ val dOT0 : z
 
 val print_fexpr : fexpr -> str
 
-val is_space0 : z -> bool
+val is_space1 : z -> bool
 
 val trim_right1 : (z -> bool) -> str -> str
 
@@ -2625,7 +3208,7 @@ type delimiter =
 
 val is_awk : delimiter -> bool
 
-val slice1 : str -> nat -> nat -> str res
+val slice2 : str -> nat -> nat -> str res
 
 val with_prefix_lengths : str list -> z -> token list
 
@@ -2642,9 +3225,9 @@ val regex_tokens : str -> nat -> (nat * nat) list -> str list res
 
 val tokenize1 : str -> delimiter -> token list res
 
-val has_prefix2 : str -> str -> bool
+val has_prefix3 : str -> str -> bool
 
-val has_suffix2 : str -> str -> bool
+val has_suffix3 : str -> str -> bool
 
 val contains0 : str -> str -> bool
 
@@ -2654,7 +3237,7 @@ val split_go : str -> nat -> str -> str -> str list
 
 val split : str -> str -> str list
 
-val is_digit1 : z -> bool
+val is_digit2 : z -> bool
 
 val digits_value : str -> z
 
@@ -2735,7 +3318,7 @@ val mf_lookup :
 
 val as_match_fn : val0 -> match_fn
 
-val vres : ('a1 -> val0) -> 'a1 res -> val0
+val vres0 : ('a1 -> val0) -> 'a1 res -> val0
 
 val vmatch : ((z * z) * z list) option -> val0
 
@@ -2803,7 +3386,7 @@ type action1 =
 
 val kind_of : entry -> kind0
 
-val is_sep0 : z -> bool
+val is_sep2 : z -> bool
 
 val sep : str
 
@@ -2825,7 +3408,7 @@ val trim_loop0 : str -> str
 
 val trim_path : str -> str
 
-val take_while2 : ('a1 -> bool) -> 'a1 list -> 'a1 list
+val take_while4 : ('a1 -> bool) -> 'a1 list -> 'a1 list
 
 val go_base : str -> str
 
